@@ -14,7 +14,7 @@ CLAIMED = {
         note="Trusted: TLC, the projection in harness/src/c01.rs (table-backed Target/Proposal, crafted xoshiro state for the acceptance draw, checked at run time), monotonicity of ln. Finite ties are never asserted; IEEE-kind ties are.",
         ref="DESIGN.md 4.4, 5/C01", technique="TLC exhaustive model check of MH.tla/MHBalance.tla + spec-to-impl replay (Gen_MH) + trace validation (Trace_MH)"),
     "C05": dict(
-        text="TLC proves on GibbsJoint.tla, for every joint weight table on 2 coordinates x 3 values (weights {1,2}; {1,2,3} thorough), that the sweep defined by Gibbs.tla leaves the joint invariant, and finds the stale-snapshot sweep does not (negative control); all return-value scripts of MC_Gibbs are replayed through the real GibbsMarkovChain for 4 element types and recorded conditional calls of chains (dim 1..64) and whole GibbsSampler runs are validated call by call against Gibbs.tla.",
+        text="TLC proves on GibbsJoint.tla, for every joint weight table on 2 coordinates x 3 values (weights {1,2}; {1,2,3} thorough), that the sweep defined by Gibbs.tla leaves the joint invariant, and finds the stale-snapshot sweep does not (negative control); all return-value scripts of MC_Gibbs are replayed through the real GibbsMarkovChain for 4 element types and recorded conditional calls of chains (dim 1..64) and whole GibbsSampler runs are validated call by call against Gibbs.tla. current_state is a public field: Gibbs!Assign puts the chain elsewhere between sweeps (MC_Gibbs interleaves it; every second behaviour is also replayed on a chain moved to its start by assignment after a throw-away sweep).",
         note="Trusted: TLC, the recording Conditional of harness/src/c05.rs (its log is the trace), token<->bit-pattern table.",
         ref="DESIGN.md 4.5, 5/C05", technique="TLC model check of Gibbs.tla/GibbsJoint.tla + replay of TLC-enumerated scripts + trace validation (Trace_Gibbs)"),
     "C11": dict(
